@@ -441,8 +441,9 @@ def pad_to_boundary(doc, term='~', ele='*', sub=':', eol='\n', rep=None, delta=-
 
 class Gen(object):
     def __init__(self, entry, ch, values=None, p_seg=.25, p_loop=.25, max_rep=2, max_segs=400, target=None, shape=(1, 1, 1),
-                 at_limit=True):
+                 at_limit=True, shuffle=True):
         self.entry = entry
+        self.shuffle = shuffle
         self.root = mm.load_map(entry['file'])
         self.ch = ch
         self.values = values or Values('~*:^', 'plain', entry['icvn'])
@@ -497,8 +498,32 @@ class Gen(object):
             return True
         return False
 
+    def _ordered_children(self, loop, start):
+        """children in position order; siblings sharing one position come in a drawn order (the map fixes none)"""
+        kids = list(loop.children[start:])
+        out = []
+        i = 0
+        while i < len(kids):
+            j = i
+            while j < len(kids) and kids[j].pos == kids[i].pos:
+                j += 1
+            grp = kids[i:j]
+            # free order: segments among themselves, situational loops among themselves (a required loop is expected
+            # before its same-position siblings, and loops come before segments)
+            kinds = set(g.kind for g in grp)
+            free = len(kinds) == 1 and (kinds == {'seg'} or all(g.usage == 'S' and g.type != 'wrapper' for g in grp)) \
+                and loop.kind != 'root' and loop.id not in ('ISA_LOOP', 'GS_LOOP', 'ST_LOOP')
+            if len(grp) > 1 and free and self.shuffle and self.ch.chance(.5):
+                grp = list(grp)
+                for k in range(len(grp) - 1, 0, -1):
+                    r = self.ch.integer(0, k)
+                    grp[k], grp[r] = grp[r], grp[k]
+            out += grp
+            i = j
+        return out
+
     def children(self, loop, chain, start=0):
-        for c in loop.children[start:]:
+        for c in self._ordered_children(loop, start):
             if c.usage == 'N':
                 continue
             forced = id(c) in self.force
